@@ -613,14 +613,15 @@ func (x *Exec) execUnOp(i *ssa.UnOp, st *State, pc Term) {
 		x.vals[i] = T(v.Sort, "(bvnot %s)", v.S)
 	case token.ARROW:
 		// receive: environment value
-		s := x.w.sortOf(i.Type())
 		if i.CommaOk {
 			tt := i.Type().(*types.Tuple)
 			v := x.vc.fresh("recv", x.w.sortOf(tt.At(0).Type()))
 			ok := x.vc.fresh("recvok", SBool)
 			x.tuples[i] = []Term{v, ok}
+			x.recvEnvG(v, tt.At(0).Type(), and(pc, ok), st)
 		} else {
-			x.vals[i] = x.vc.fresh("recv", s)
+			x.vals[i] = x.vc.fresh("recv", x.w.sortOf(i.Type()))
+			x.recvEnvG(x.vals[i], i.Type(), pc, st)
 		}
 		x.dropped["channel receive at "+x.posStr(i.Pos())+": value is an unconstrained environment input; blocking not modelled"] = true
 	default:
